@@ -20,12 +20,15 @@ Crypt(n) ==
       tamper |-> RE({"none", "none", "none", "flip", "trunc", "random", "short", "nokeyinfo"}),
       \* how the sender's / receiver's record is filed (key id of its certificate key, an application id, none): must not matter
       sid |-> RE({"keyid", "custom", "empty"}), rid |-> RE({"keyid", "custom", "empty"}),
-      dirty |-> RE(BOOLEAN)]        \* the receiver decrypts into a message value that already holds other content
+      dirty |-> RE(BOOLEAN),
+      rstore |-> RE({FALSE, FALSE, TRUE}),     \* the receiver's record was stored with a storage wrapper and loaded back before use
+      retain |-> RE({FALSE, FALSE, TRUE})]     \* key sources that keep and hand out the same key slices; a first message was exchanged before        \* the receiver decrypts into a message value that already holds other content
 SetToSeq(S) == CHOOSE q \in [1..Cardinality(S) -> S] : \A i, j \in 1..Cardinality(S) : i # j => q[i] # q[j]
 Rec(n) == LET t == RE(RecTypes) IN
           [op |-> "Rec", t |-> t, present |-> SetToSeq(RE(Presents(t))), wrapper |-> RE({TRUE, TRUE, FALSE}), withState |-> RE(BOOLEAN),
            rot |-> RE({FALSE, FALSE, TRUE}),
-           longNonce |-> RE(BOOLEAN)]             \* node credentials: the nonce is a decoded activation token (not 32 bytes)      \* the wrapper's encrypting key is rotated between store and load (old values still open)
+           longNonce |-> RE(BOOLEAN),
+           rekey |-> RE({FALSE, TRUE})]           \* node records: the wrapper is re-keyed under the same key id and the record stored again             \* node credentials: the nonce is a decoded activation token (not 32 bytes)      \* the wrapper's encrypting key is rotated between store and load (old values still open)
 Flow(n) == [op |-> "Flow", name |-> RE({"authorize", "token", "rotate", "rotateNamed", "dial", "dialtoken"}), withState |-> RE(BOOLEAN)]
 Init == hist = <<>> /\ done = FALSE
 Step == /\ Len(hist) < Depth
